@@ -1,4 +1,5 @@
 import BreezyVerif.Lemmas.C34
+import BreezyVerif.Lemmas.C34RT
 /-!
 C34 — importing then exporting a git commit reproduces it.
 
@@ -305,7 +306,7 @@ def roundTrip (strict : Bool) (id : Bytes) (c : Commit) : Except Err (Except Err
   roundTripE envW false strict id c
 
 def wCommit : Commit :=
-  { tree := bs "cc9462f7f8263ef5adfbeff2fb936bb36b504cba", parents := [bs "aaaaaaaaaaaaaaaaaaaaaaaaaaaaaaaaaaaaaaaa"],
+  { tree := bs "tree", parents := [List.replicate 40 97],
     author := bs "A <a@x>", authorTime := 10, authorTz := 3600, authorNegUtc := false,
     committer := bs "C <c@x>", commitTime := 12, commitTz := 0, commitNegUtc := true,
     encoding := some (bs "latin1"), mergetags := [bs "object x\n"],
@@ -317,12 +318,12 @@ def wCommit : Commit :=
 round-trips -/
 theorem canon_example_ok : Canon wCommit = true ∧
     roundTrip true (bs "1234") wCommit = .ok (.ok wCommit) := by
-  decide
+  decide +kernel
 
 /-- finding `missing-message`: accepted by import, export raises (AttributeError) -/
 theorem missing_message_witness :
     roundTrip true (bs "1234") { wCommit with message := none } = .ok (.error .attr) := by
-  decide
+  decide +kernel
 
 /-- finding `person-ident-noncanonical`: `A<a@x>` comes back as `A <a@x>`, and an
 identifier ending in `>` without `<` is accepted by import but export raises -/
@@ -330,7 +331,7 @@ theorem person_ident_witness :
     roundTrip true (bs "1234") { wCommit with author := bs "A<a@x>" } =
       .ok (.ok { wCommit with author := bs "A <a@x>" }) ∧
     roundTrip true (bs "1234") { wCommit with author := bs "foo>" } = .ok (.error .value) := by
-  decide
+  decide +kernel
 
 /-- finding `git-extra-embedded-newline`: a continuation line in an
 `HG:rename-source` value is accepted by import; export raises (ValueError in
@@ -340,7 +341,7 @@ theorem git_extra_embedded_newline_witness :
       .ok (.error .value) ∧
     roundTrip true (bs "1234") { wCommit with extra := [(bs "HG:rename-source", [97, 10, 98, 32, 99])] } =
       .ok (.ok { wCommit with extra := [(bs "HG:rename-source", [97]), ([98], [99])] }) := by
-  decide
+  decide +kernel
 
 /-- (fixed in b3a449a) the other `str.splitlines()` boundaries — form feed, CR,
 U+2028 … — in an extra-header value now round-trip -/
@@ -348,7 +349,7 @@ theorem git_extra_formfeed_roundtrips :
     roundTrip true (bs "1234")
         { wCommit with extra := [(bs "HG:rename-source", [97, 12, 98, 13, 0xe2, 0x80, 0xa8])] } =
       .ok (.ok { wCommit with extra := [(bs "HG:rename-source", [97, 12, 98, 13, 0xe2, 0x80, 0xa8])] }) := by
-  decide
+  decide +kernel
 
 /-- finding `encoding-noninjective-codec`: with `encoding utf-8-sig` the commit is
 accepted and comes back with a BOM in front of author, committer and message
@@ -366,7 +367,7 @@ theorem encoding_noninjective_codec_witness :
       .ok (.ok { wCommit with encoding := some (bs "l1") }) ∧
     roundTrip true (bs "1234") { wCommit with encoding := some (bs "x-rev") } =
       .ok (.ok { wCommit with encoding := some (bs "x-rev") }) := by
-  decide
+  decide +kernel
 
 /-- in the variant with the fix the `utf-8-sig` commit is refused by a strict import
 and a bijective codec is still accepted -/
@@ -375,21 +376,21 @@ theorem fixed_variant_refuses_witness :
       .error .irreversible ∧
     isOk (importCommit envW true true (bs "1234") { wCommit with encoding := some (bs "x-rev") }) = true ∧
     AuthorStrCanon envW { wCommit with encoding := some (bs "x-rev") } = true := by
-  decide
+  decide +kernel
 
 /-- non-vacuity of `exp_imp_id_partial` for an environment codec: all hypotheses
 hold for `x-rev` (and `canon_example_ok` for latin1) -/
 example : PyEnv envW ∧ Canon { wCommit with encoding := some (bs "x-rev") } = true ∧
     CodecFaithful envW { wCommit with encoding := some (bs "x-rev") } = true ∧
     (∃ rev, importCommit envW true true (bs "1234") { wCommit with encoding := some (bs "x-rev") } = .ok rev) := by
-  exact ⟨by decide, by decide, by decide, exists_of_isOk (by decide)⟩
+  exact ⟨by decide, by decide +kernel, by decide +kernel, exists_of_isOk (by decide +kernel)⟩
 
 /-- an unknown codec name: import refuses (`UnknownCommitEncoding`); a name with an
 embedded NUL: `ValueError` -/
 theorem unknown_encoding_rejected :
     roundTrip true (bs "1234") { wCommit with encoding := some (bs "klingon") } = .error .unknownEncoding ∧
     roundTrip true (bs "1234") { wCommit with encoding := some (bs "utf\x00") } = .error .value := by
-  decide
+  decide +kernel
 
 theorem decodeName_latin1_ok (env : Env) (hwf : PyEnv env) (b : Bytes) :
     decodeName env (bs "latin1") b = .ok ⟨.latin1, b⟩ := by
@@ -480,7 +481,7 @@ theorem encoding_false_roundtrips (env : Env) (hwf : PyEnv env) (fx strict : Boo
 /-- non-vacuity of `encoding_false_roundtrips` (with extra headers) -/
 example : Canon { wCommit with encoding := some (bs "false") } = true ∧
     (∃ p, importExtra true wCommit.extra = .ok p) := by
-  exact ⟨by decide, exists_of_isOk (by decide)⟩
+  exact ⟨by decide +kernel, exists_of_isOk (by decide +kernel)⟩
 
 /-- **`get_revision_id` agrees with import**: for every commit `import_commit`
 accepts, `get_revision_id` does not raise and returns the id of the imported
@@ -573,5 +574,51 @@ theorem fixPerson_canonical (name email : Bytes) (hn : 60 ∉ name) (he : 60 ∉
 
 example : fixPerson (bs "A b <a@x>") = some (bs "A b <a@x>") := by decide
 example : fixPerson (bs " <>") = some (bs " <>") := by decide
+
+/-! ### roundtrip.py: the `--BZR--` metadata block
+
+(not reachable from the v1 mapping in lossy mode — `export_commit` only injects
+when `not lossy`, and the only mapping with `experimental = True` has
+`roundtripping = False` — but named by the property's anchors) -/
+
+/-- `parse_roundtripping_metadata(generate_roundtripping_metadata(s)) == s` for every
+well-formed supplement `s` (any number of properties with arbitrary — multi-line,
+empty — values, any ids without whitespace) -/
+theorem parse_generate (s : Supp) (h : WF s = true) : parseMeta (generate s) = some s :=
+  parse_generate_wf s h
+
+/-- `extract_bzr_metadata(inject_bzr_metadata(m, s)) == (m, s)` for every message
+`m` in which the marker does not occur before the appended block and every
+well-formed `s`; with an empty `s` nothing is appended and `(m, None)` comes back -/
+theorem extract_inject (m : Bytes) (s : Supp) (hwf : WF s = true) :
+    (generate s ≠ [] → noEarlyMarker m (generate s) = true →
+      extractMeta (injectMeta m (some s)) = some (m, some s)) ∧
+    (generate s = [] → noMarkerIn m = true → extractMeta (injectMeta m (some s)) = some (m, none)) :=
+  extract_inject_wf m s hwf
+
+def exSupp : Supp :=
+  { revisionId := some (bs "joe@example.com-2009-rev1"), parentIds := some [bs "p1", bs "ghost-2"],
+    props := [(bs "branch-nick", bs "trunk"), (bs "bugs", bs "http://b/1 fixed\n\nhttp://b/2 fixed\n")],
+    testament := some (bs "0123abcd") }
+
+/-- non-vacuity of `parse_generate` / `extract_inject`: a supplement with every
+kind of line, a three-line property value ending in a newline, and a message
+containing `--BZR--` but not the marker -/
+example : WF exSupp = true ∧ generate exSupp ≠ [] ∧
+    noEarlyMarker (bs "fix\n--BZR--x\n") (generate exSupp) = true ∧
+    WF emptySupp = true ∧ generate emptySupp = [] ∧ noMarkerIn (bs "fix\n--BZR--x\n") = true := by
+  decide +kernel
+
+/-- the hypotheses are needed: a message that already contains the marker is cut
+there; a property name with `:` and an id with an inner space come back different
+(these are preconditions of the API, not reachable from `import_commit`) -/
+theorem roundtrip_metadata_precondition_witness :
+    extractMeta (injectMeta (bs "a\n--BZR--\nrevision-id: evil\n") (some emptySupp)) =
+      some (bs "a", some { emptySupp with revisionId := some (bs "evil") }) ∧
+    parseMeta (generate { emptySupp with props := [(bs "a:b", bs "v")] }) =
+      some { emptySupp with props := [(bs "a", bs ": v")] } ∧
+    parseMeta (generate { emptySupp with parentIds := some [bs "a b"] }) =
+      some { emptySupp with parentIds := some [bs "a", bs "b"] } := by
+  decide +kernel
 
 end BreezyVerif.C34
